@@ -91,7 +91,7 @@ IAdd ==
     Len(ctab[x].t) + Len(ctab[y].t) <= MaxTotalLen /\
     LET g == CPIAdd(ctab[x].t, ctab[x].f, ctab[y].t, ctab[y].f) IN
     Do([ctab EXCEPT ![x] = [k |-> "S", t |-> g[1], f |-> g[2]]],
-       Ev("iadd", x, [other |-> y, inplace |-> 1], <<x>>, 1), 0)
+       Ev("iadd", x, [other |-> y, inplace |-> 1], <<x>>, 1), 2 * ninst + 1)
 
 \* a + b = copy of a, then +=
 Add ==
@@ -100,7 +100,7 @@ Add ==
     LET r == NextFree
         g == CPIAdd(ctab[x].t, ctab[x].f, ctab[y].t, ctab[y].f) IN
     Do([ctab EXCEPT ![r] = [k |-> "S", t |-> g[1], f |-> g[2]]],
-       Ev("add", x, [other |-> y, inplace |-> 0], <<r>>, 0), 0)
+       Ev("add", x, [other |-> y, inplace |-> 0], <<r>>, 0), 2 * ninst + 1)
 
 Pad ==
   \E x \in Live, m \in {"ljust", "rjust", "center"}, ext \in {0, 1}, fl \in Alphabet :
